@@ -58,6 +58,9 @@ let parse_script (case : string) =
             let merged = List.concat (List.rev !since_r) in
             since_r := []; if merged <> [] then segs := !segs @ [merged]
           | 'X' -> flush (); closed := true
+          (* a pause longer than the read timeout of the server's socket (setting `,T<ms>`): the read the server is blocked in
+             fails; to the server the stream is unreadable from here on, as at an end of input - what is sent later is never read *)
+          | 'P' -> flush (); closed := true
           | _ -> failwith "bad step") steps;
     flush ();
     (maxh, !segs, !nr, !closed)
@@ -101,6 +104,64 @@ let eval (props : string list) case impl =
     else if List.mem "C07" props && M.known_F21 the_app (nat_of_int maxh) segs then "F21"
     else "-" in
   ((if canon model = canon impl then impl else model), if ok then [] else List.map (fun p -> (p, tag)) props)
+
+
+(* connpipe stream: pipelined histories, the same bytes under several segmentations (scripts joined by '#').
+   Every script is judged against the sequential reading of its bytes (spec_conn); the first entry at which the transcript
+   departs from it says which properties the departure falls under:
+     C07  always (one response per request, in order, each from its own bytes; the byte behind a body starts the next request)
+     C10  a request whose head fits the limit was not processed normally, or 431 given / withheld wrongly
+     C09  the connection was closed or left unserved where it had to stay open, or served after a close; a wrong close token
+     C05  400 given / withheld wrongly, a wrong body presented, or the place where the next request begins lost
+     C06  a handler was presented with a body that is not the payload
+   and C03 when the segmentations of one byte string do not all give the same transcript. *)
+let eval_pipe case impl =
+  let scripts = split_on '#' case and ts = split_on '#' impl in
+  let canon_entries t =
+    let b = match String.index_opt t '|' with Some i -> String.sub t 0 i | None -> t in
+    List.filter (fun e -> e <> "TIMEOUT" && e <> "CLOSED" && e <> "") (split_on ';' b) in
+  let ending_of t = match split_on '|' t with _ :: e :: _ -> e | _ -> "" in
+  let fails = ref [] in
+  let add p = if not (List.mem (p, "-") !fails) then fails := !fails @ [(p, "-")] in
+  let models = List.mapi (fun k sc ->
+      let (maxh, segs, nr, closed) = parse_script sc in
+      let r = M.serve_conn the_app (nat_of_int maxh) segs in
+      let model = transcript r.M.c_resps nr (not r.M.c_waiting) r.M.c_waiting closed r.M.c_ok in
+      let (sresps, ending) = M.spec_conn the_app (nat_of_int maxh) (List.concat segs) in
+      let spec = transcript sresps nr (ending = M.EClosed) (ending <> M.EClosed) closed true in
+      let t = (match List.nth_opt ts k with Some t -> t | None -> "") in
+      let se = canon_entries spec and ie = canon_entries t in
+      let field e k = match List.nth_opt (split_on ',' e) k with Some x -> x | None -> "" in
+      let rec first_diff s i = match s, i with
+        | [], [] -> None
+        | x :: s', y :: i' -> if x = y then first_diff s' i' else Some (Some x, Some y)
+        | x :: _, [] -> Some (Some x, None)
+        | [], y :: _ -> Some (None, Some y) in
+      (if ending <> M.EUnspec then
+         match first_diff se ie with
+         | None -> if ending_of (without_result spec) <> ending_of (without_result t) then (add "C07"; add "C09")
+         | Some (Some x, Some y) ->
+           add "C07";
+           let sx = field x 0 and sy = field y 0 in
+           if sx <> sy then begin
+             if sx = "431" || sy = "431" then (add "C10"; add "C09");
+             if sx = "400" || sy = "400" then add "C05";
+             if sx <> "431" && sx <> "400" && maxh < 4096 then add "C10"
+           end else begin
+             if field x 1 <> field y 1 then (add "C05"; add "C06");
+             if field x 2 <> field y 2 then add "C09"
+           end
+         | Some (Some x, None) ->
+           add "C07"; add "C09"; add "C05";
+           if field x 0 <> "431" && field x 0 <> "400" && maxh < 4096 then add "C10"
+         | Some (None, Some _) -> add "C07"; add "C09"; add "C05");
+      model) scripts in
+  let cts = List.map (fun t -> (canon_entries t, ending_of (without_result t))) ts in
+  let same = (match cts with a :: rest -> List.for_all (fun t -> t = a) rest | [] -> false) in
+  if not same then add "C03";
+  let model_same = List.length models = List.length ts
+                   && List.for_all2 (fun m t -> canon_entries m = canon_entries t && ending_of m = ending_of t) models ts in
+  ((if model_same then impl else String.concat "#" models), !fails)
 
 
 (* readloop stream (C03 at connection level): `<hex> <segmentations>`; impl = transcripts joined by '#'.
